@@ -245,6 +245,7 @@ func execC14(w *world) {
 	for _, raw := range plan.Steps {
 		s := decodeStep(raw)
 		run.Step()
+		run.AbandonIfWallOver()
 		switch s.Op {
 		case "pin", "unpin":
 			apply(s)
